@@ -95,6 +95,6 @@ Spec == Init /\ [][Next]_vars
 
 -----------------------------------------------------------------------------
 (* what the channels rely on, as functions of the observed history (TransProps)           *)
-P_T == T_Order(obs) /\ T_NoLoss(obs) /\ T_ClosedRefuses(obs, Kind)
+P_T == T_Order(obs) /\ T_NoLoss(obs) /\ T_ClosedRefuses(obs, Kind) /\ T_CloseNoticed(obs)
 TypeOK == nsent \in 0 .. MaxOps
 =============================================================================
